@@ -192,6 +192,11 @@ def unary_hook(ex, op, v):
     return None
 
 
+def inplace_hook(ex, op, target, value, what):
+    """x op= value on a library object that is updated IN PLACE; returns True if handled."""
+    return False
+
+
 BINOP_HOOKS: list = []
 
 
